@@ -103,12 +103,22 @@ inline ApiCase gen_dft(const MODULE* mod, MODULE_TYPE t, DftShape s, const char*
     int ir = c.add("res_dft", R_OUT, dft_bytes(t, N, s.rs));
     size_t ae = limbvec_elems(N, s.as, s.asl);
     int ia = c.add("a", R_IN, ae * 8);
-    for (size_t e = 0; e < ae; ++e) put_i64(c.bufs[ia].init, e, dft_in_value(t, e));
+    // limb 1 (when present, FFT64): every coefficient a non-zero multiple of 2^32 (a plaintext scaled by a power of two)
+    for (size_t e = 0; e < ae; ++e) { int64_t v = dft_in_value(t, e); if (t == FFT64 && e / s.asl == 1 && e % s.asl < N) v = ((int64_t)(e % 7) + 1) * ((e & 1) ? -1 : 1) * (INT64_C(1) << 32); put_i64(c.bufs[ia].init, e, v); }
     Buf& R = c.bufs[ir];
     size_t lb = dft_bytes(t, N, 1);
     for (uint64_t i = 0; i < s.rs; ++i) memset(&R.mask[i * lb], i < smin ? 2 : 1, lb);  // limbs >= smin: exactly zero
+    // oracle for the opaque result: read back through the inverse transform (on a copy) it must return the input limbs exactly
+    int ib = c.add("readback", R_OUT, big_bytes(t, N, s.rs));
+    { Buf& B = c.bufs[ib]; size_t eb = t == FFT64 ? 8 : 16;
+      for (uint64_t i = 0; i < s.rs; ++i) for (uint64_t j = 0; j < N; ++j) { i128 v = i < smin ? (i128)get_i64(c.bufs[ia].init, i * s.asl + j) : 0; memcpy(&B.exp[(i * N + j) * eb], &v, eb); memset(&B.mask[(i * N + j) * eb], 1, eb); } }
     c.nontrivial = smin > 0;
-    c.call = [mod, s, ir, ia](uint8_t** p) { vec_znx_dft(mod, (VEC_ZNX_DFT*)p[ir], s.rs, (const int64_t*)p[ia], s.as, s.asl); };
+    c.call = [mod, s, t, N, ir, ia, ib](uint8_t** p) {
+      vec_znx_dft(mod, (VEC_ZNX_DFT*)p[ir], s.rs, (const int64_t*)p[ia], s.as, s.asl);
+      GBuf cp(dft_bytes(t, N, s.rs), 16);
+      if (cp.bytes) memcpy(cp.p, p[ir], cp.bytes);
+      vec_znx_idft_tmp_a(mod, (VEC_ZNX_BIG*)p[ib], s.rs, (VEC_ZNX_DFT*)cp.p, s.rs);
+    };
     return c;
   }
   // inverse: the source is the real DFT of known polynomials
@@ -183,7 +193,9 @@ inline ApiCase gen_small_product(const MODULE* mod, uint64_t N, const char* cfg,
   int it = c.add("tmp", R_SCRATCH, znx_small_single_product_tmp_bytes(mod));
   std::vector<int64_t> a(N), b(N);
   int64_t bound = 1 << 12;
-  for (size_t e = 0; e < N; ++e) { a[e] = small_val(e + 3, bound); b[e] = small_val(e + 1000, bound); put_i64(c.bufs[ia].init, e, a[e]); put_i64(c.bufs[ib].init, e, b[e]); }
+  // alias 2: the square a*a with the SAME pointer passed for both sources
+  for (size_t e = 0; e < N; ++e) { a[e] = small_val(e + 3, bound); b[e] = alias == 2 ? a[e] : small_val(e + 1000, bound); put_i64(c.bufs[ia].init, e, a[e]); put_i64(c.bufs[ib].init, e, b[e]); }
+  if (alias == 2) c.bufs[ib].alias_of = ia;
   std::vector<i128> prod(N);
   negacyclic_mul_i64(N, prod.data(), a.data(), b.data());
   for (size_t e = 0; e < N; ++e) { put_i64(c.bufs[ir].exp, e, (int64_t)prod[e]); }
